@@ -105,7 +105,7 @@ From AV Require Import Tree.NoPanicProofsBase Tree.NoPanicProofsDepth Tree.NoPan
 From AV Require Import Hash.HashRealAttr Tree.Script2 Tree.SortProofsHeap Tree.SortProofsReadyV Tree.IndexProofsNodeInv Tree.NoPanicProofsMoveX Tree.NoPanicFloat
   Tree.NoPanicProofsHist Tree.NoPanicProofsHistReal Tree.NoPanicProofsOp2 Tree.SortProofsReal Tree.NoPanicProofsHistEx.
 From AV Require Import Tree.Compat Tree.CompatTyped Tree.CompatHist1 Tree.Serialize Tree.NoPanicProofsFiles Tree.NoPanicProofsSerFile Tree.NoPanicProofsCompat
-  Tree.NoPanicProofsCompatEx Tree.NoPanicProofsOp2Hist Tree.NoPanicProofsOp2HistReal.
+  Tree.NoPanicProofsCompatEx Tree.NoPanicProofsOp2Hist Tree.NoPanicProofsOp2HistReal Tree.NoPanicProofsOp2HistEx.
 Open Scope N_scope.
 
 Theorem C12_no_panic_partial :
@@ -346,3 +346,10 @@ Proof.
            conj (np_f_serialize T tab_el tab_at tab_en check_fn LATEST root_attrs float_fmt asl OK CH EO AO w f I L)
                 (fun r w' H => H2_f_serialize T tab_el tab_at tab_en check_fn float_fmt asl EO AO f w r w' H I)).
 Qed.
+
+(* [F] non-vacuity of the op2 history theorem: create, sort, serialize file / element, a Float through the oracle, sort model *)
+Theorem C12_histories2_nonvacuous :
+  wf_ops2 RT tab_element tab_attr tab_enum nv_check (fun _ => None) ex_fmt 1048576 3516 6311 78 [] ex2_hist empty_world /\
+  exists w', run_ops2F RT tab_element tab_attr tab_enum nv_check (fun _ => None) ex_fmt 1048576 3516 6311 78 [] ex2_hist empty_world = Val w' /\
+             option_map n_content (w_nodes w' 1) = Some [CElem 4; CElem 2].
+Proof. exact (conj ex2_wf ex2_runs). Qed.
